@@ -57,16 +57,21 @@ theorem interLoop_rx (E : Res → Prop) (l : List (Bytes × Bool)) (r : Res) (hr
       · exact rx_err _ _
       · apply ih; intro acc; exact h _
 
-theorem writeBack_rx (P : Res → Prop) (l : List (Bytes × List Bytes × List Bytes)) (k : Prog Res) (h : k.AllRet P) :
-    (writeBack l k).AllRet P := by
+theorem storeLoop_rx (E : Res → Prop) (l : List (Bytes × Bool)) :
+    ∀ (k : Bool → List (List Bytes) → Prog Res), (∀ e x, (k e x).AllRet (Res.WFx E)) → (storeLoop l k).AllRet (Res.WFx E) := by
   induction l with
-  | nil => exact h
-  | cons x r ih =>
-    obtain ⟨a, o, n⟩ := x
-    unfold writeBack
+  | nil => intro k h; exact h _ _
+  | cons x rest ih =>
+    intro k h
+    obtain ⟨key, e⟩ := x
+    unfold storeLoop
     split
-    · exact ih
-    · exact fun _ => ih
+    · apply ih; intro _ acc; exact h _ _
+    · intro vs
+      dsimp only
+      split
+      · exact rx_err _ _
+      · apply ih; intro _ acc; exact h _ _
 
 /-- `wf` extended with the set-module combinators and the member-listing leaf -/
 macro "wfs" : tactic => `(tactic| (
@@ -78,7 +83,7 @@ macro "wfs" : tactic => `(tactic| (
     | (refine rx_ok _ _ ?_; wfleaf)
     | (apply setOrErr_rx)
     | (apply collectSets_rx; intro _)
-    | (apply writeBack_rx)
+    | (apply storeLoop_rx; intro _ _)
     | (refine rx_call _ _ _ ?_; intro _)
     | split
     | (dsimp only))))
@@ -120,31 +125,25 @@ theorem handleSPop_wf (c : Ctx) (cmd : List Bytes) : (handleSPop c cmd).AllRet R
 theorem handleSDiff_wf (st : Bool) (c : Ctx) (cmd : List Bytes) : (handleSDiff st c cmd).AllRet Res.WFok := by
   apply allRet_full; unfold handleSDiff; wfs
 
-theorem sinterStore_wf (E : Res → Prop) (a d : Bytes) (s : List (Nat × List Bytes)) (r : List Bytes) :
-    (sinterStore a d s r).AllRet (Res.WFx E) := by
-  unfold sinterStore; wfs
-
-/-- what follows the SINTER operand loop -/
-theorem sinterTail_wf (E : Res → Prop) (m : Nat) (l : Int) (a d : Bytes) (s : List (Nat × List Bytes)) :
-    (sinterTail m l a d s).AllRet (Res.WFx E) := by
+/-- what follows the SINTER / SINTERCARD operand loop -/
+theorem sinterTail_wf (E : Res → Prop) (m : Nat) (l : Int) (s : List (Nat × List Bytes)) :
+    (sinterTail m l s).AllRet (Res.WFx E) := by
   unfold sinterTail; wfs
-  all_goals exact sinterStore_wf _ _ _ _ _
+
+/-- SINTERSTORE: an error, or the cardinality of the set just stored -/
+theorem handleSInterStore_wf (E : Res → Prop) (cmd : List Bytes) : (handleSInterStore cmd).AllRet (Res.WFx E) := by
+  unfold handleSInterStore; wfs
 
 /-- SINTER / SINTERCARD / SINTERSTORE (mode 0 / 2 / 1) -/
 theorem handleSInter_wf (m : Nat) (c : Ctx) (cmd : List Bytes) : (handleSInter m c cmd).AllRet Res.WFok := by
-  apply allRet_full; unfold handleSInter; wfs
-  all_goals first
-    | (refine interLoop_rx _ _ _ ?_ _ (fun _ => sinterTail_wf _ _ _ _ _ _); first | exact wf_emptyArr | exact wf_int _)
+  apply allRet_full; unfold handleSInter; split
+  · exact handleSInterStore_wf _ _
+  · unfold handleSInterRead; wfs
+    all_goals first
+      | (refine interLoop_rx _ _ _ ?_ _ (fun _ => sinterTail_wf _ _ _ _); first | exact wf_emptyArr | exact wf_int _)
 
-theorem sunionTail_wf (E : Res → Prop) (st : Bool) (d : Bytes) (o : List (Bytes × Nat × List Bytes)) :
-    (sunionTail st d o).AllRet (Res.WFx E) := by
-  unfold sunionTail; wfs
-
-attribute [local irreducible] sunionTail
-
-/-- SUNION / SUNIONSTORE -/
+/-- SUNION / SUNIONSTORE: an error, the members of the union as an array, or the cardinality stored -/
 theorem handleSUnion_wf (st : Bool) (c : Ctx) (cmd : List Bytes) : (handleSUnion st c cmd).AllRet Res.WFok := by
   apply allRet_full; unfold handleSUnion; wfs
-  all_goals exact sunionTail_wf _ _ _ _
 
 end Sugar
